@@ -1039,7 +1039,7 @@ package godi
 //@   ghost linked bool
 //@   at after loop 3 : ghost linked := true
 //@   at after loop 6 : ghost linked := true
-//@   ensures[C04] outputs_of_one_registration_are_linked: result == nil && linked ==> (forall c int :: 0 <= c && c < ncalls("collection.registerDescriptor") ==>
+//@   ensures[C04,C01,C02] outputs_of_one_registration_are_linked: result == nil && ncalls("collection.registerDescriptor") >= 2 ==> (forall c int :: 0 <= c && c < ncalls("collection.registerDescriptor") ==>
 //@        len(callarg("collection.registerDescriptor", c, 1, "*Descriptor").outputs) == ncalls("collection.registerDescriptor")
 //@        && callarg("collection.registerDescriptor", c, 1, "*Descriptor").outputs[c] == callarg("collection.registerDescriptor", c, 1, "*Descriptor"))
 //@   loop 3
